@@ -16,7 +16,8 @@ RULE = ('Hypothesis-generated histories over a small resource tree (root, sub-ma
         'raises, a World for world handles): accesses through every path - handle(), root[path], chained [], '
         'enclosing_map[suffix], get(path)(), attribute and item chains and get() on static snapshots taken at '
         'generated moments, SimpleLoop.switch(handle, clear_current, clear_next) for world handles - '
-        'interleaved with handle.clear(). Oracle: per handle a cached flag, the current object and a load '
+        'interleaved with handle.clear() and with replacement of a handle in the map by a new one (the old handle '
+        'stays in the program\'s hands and keeps being accessed). Oracle: per handle a cached flag, the current object and a load '
         'counter: every access returns the identical object as the first access since the last clear, load() '
         'runs exactly on the first access after construction/clear, handle.cached equals the model flag after '
         'every step. Non-trivial = a falsy/odd value accessed >= 2 times through >= 2 different access paths '
